@@ -60,7 +60,7 @@ prop("C13",
 
 prop("C03",
      ["C03_only_key_waits_block", "C03_drop_always_completes", "C03_stream_drops_valueless_guard", "C03_absent_key_no_wait", "C03_free_key_no_wait", "C03_free_mutex_has_no_waiters",
-      "C03_release_hands_over", "C03_handed_waiter_runs", "C03_waiter_never_detached", "C03_blocked_only_by_client_guards", "C03_witness"],
+      "C03_release_hands_over", "C03_handed_waiter_runs", "C03_waiter_never_detached", "C03_blocked_only_by_client_guards", "C03_no_library_deadlock", "C03_never_stuck", "C03_drain_witness", "C03_witness"],
      ["C14.lost_wakeup", "C03.", "C13.hang", "C03.stream_stall"],
      [fam("evict","H",1500,"monitor"), fam("evict","L",1500,"monitor"), fam("mix","L",1000,"monitor"), fam("dfs-lock3","H",3000), fam("dfs-lock2","L",4000), fam("nolimit","H",1500), fam("nolimit","L",1500), fam("dfs-cancel","H",4000), fam("dfs-stream","L",3000), fam("stream","H",800), fam("scale-stream","L",4,"monitor"), fam("scale-stream","H",4,"monitor"), fam("fine-nolimit","H",1500,"monitor")],
      [fam("evict","H",40000,"monitor"), fam("evict","L",40000,"monitor"), fam("mix","L",40000,"monitor"), fam("mix","H",40000,"monitor"), fam("dfs-lock3","H",200000), fam("dfs-lock3","L",200000), fam("dfs-lock2","L",200000), fam("nolimit","H",40000), fam("nolimit","L",40000), fam("dfs-cancel","H",200000), fam("dfs-stream","L",200000), fam("stream","H",20000), fam("stream","L",20000), fam("scale-stream","L",64,"monitor"), fam("scale-stream","H",64,"monitor"), fam("fine-nolimit","H",40000,"monitor"), fam("fine-stream","L",40000,"monitor")],
@@ -78,7 +78,7 @@ prop("C07",
      [fam("evict","H",60000), fam("evict","L",60000), fam("dfs-evict","L",300000), fam("dfs-evict","H",300000), fam("mix","H",20000,"monitor"), fam("fine-evict","H",40000,"monitor"), fam("fine-evict","L",40000,"monitor")],
      cosim_ignore="order,stamp")
 prop("C08",
-     ["C08_all_locked_proceeds", "C08_never_waits", "C08_callback_holds_nothing", "C08_reentrant", "C08_error_propagates", "C08_witness"],
+     ["C08_all_locked_proceeds", "C08_never_waits", "C08_callback_holds_nothing", "C08_reentrant", "C08_error_propagates", "C08_no_deadlock_at_the_limit", "C08_witness"],
      ["C08.", "C13.", "C07."],
      [fam("evict","H",2500), fam("evict","L",2500), fam("dfs-evict","L",4000), fam("dfs-evict","H",4000), fam("fine-evict","H",1500,"monitor"), fam("fine-evict","L",1500,"monitor")],
      [fam("evict","H",60000), fam("evict","L",60000), fam("dfs-evict","L",300000), fam("dfs-evict","H",300000), fam("fine-evict","H",40000,"monitor"), fam("fine-evict","L",40000,"monitor")],
